@@ -142,6 +142,8 @@ class ExprMixin:
         nm = e.id
         if nm in st.locals:
             return st.locals[nm]
+        if self.in_spec and nm == "out":
+            return VList(TStr(), st.out)
         if self.in_spec and nm in self.specs.funcs:
             return VFunc("spec", nm)
         if self.in_spec and nm in self.specs.consts:
